@@ -125,13 +125,82 @@ Check c13_exit_means_small_change : forall (rows : list (list R)) (es lam : R) (
     (lam <> 0 -> Rabs (lam - prev) < es * Rabs lam).
 Print Assumptions c13_exit_means_small_change.
 
+(* Accuracy, what is proved (exact arithmetic).  Vocabulary: [mvf n M x] = the vector M x,
+   [dotf n x y] = x . y, [rqf n M x] = x.(M x) / x.x, [ypow n M k] = M^(k+1) * ones.
+
+   (1) The returned eigenvalue is the residual-minimising scalar for the returned vector:
+   sum_i ((A v)_i - lam v_i)^2 = sum_i (A v)_i^2 - lam^2 sum_i v_i^2, and no real mu gives a
+   smaller residual.  (Pure algebra; holds for every A, symmetric or not.) *)
+Theorem c13_rayleigh_residual : forall (rows : list (list R)) (es lam : R) (v : arr R),
+  power_method rows es = Ok (lam, v) ->
+  exists (n : nat) (A : arr R),
+    (1 <= n)%nat /\ try_from rows = Ok A /\ ah A = n /\ aw A = n /\ shaped n 1 v /\
+    let vi := fun i => aget v i 0 in
+    let Av := mvf n (aget A) vi in
+    lam = rayleigh n A v /\
+    rsum n (fun i => (Av i - lam * vi i) ^ 2) =
+      rsum n (fun i => Av i ^ 2) - lam ^ 2 * rsum n (fun i => vi i ^ 2) /\
+    forall mu, rsum n (fun i => (Av i - lam * vi i) ^ 2) <= rsum n (fun i => (Av i - mu * vi i) ^ 2).
+Proof. exact Proofs.Power.c13_rayleigh_residual_R. Qed.
+Check c13_rayleigh_residual : forall (rows : list (list R)) (es lam : R) (v : arr R),
+  power_method rows es = Ok (lam, v) ->
+  exists (n : nat) (A : arr R),
+    (1 <= n)%nat /\ try_from rows = Ok A /\ ah A = n /\ aw A = n /\ shaped n 1 v /\
+    let vi := fun i => aget v i 0 in
+    let Av := mvf n (aget A) vi in
+    lam = rayleigh n A v /\
+    rsum n (fun i => (Av i - lam * vi i) ^ 2) =
+      rsum n (fun i => Av i ^ 2) - lam ^ 2 * rsum n (fun i => vi i ^ 2) /\
+    forall mu, rsum n (fun i => (Av i - lam * vi i) ^ 2) <= rsum n (fun i => (Av i - mu * vi i) ^ 2).
+Print Assumptions c13_rayleigh_residual.
+
+(* (2) Geometric convergence of the eigenvalue estimates, under an explicit eigen-decomposition
+   HYPOTHESIS (no spectral theorem): q_0 .. q_(n-1) orthonormal with A q_i = lam_i q_i, ones =
+   sum_i c_i q_i with c_0 <> 0, lam_0 <> 0 and |lam_i| <= g |lam_0| for i >= 1, 0 <= g < 1
+   (index 0 = dominant).  Then the model's state after k loop bodies exists (no scaling
+   component is ever 0), its eigenvalue rho_k is the Rayleigh quotient of A^(k+1) * ones (the
+   normalisations cancel), and  |rho_k - lam_0| c_0^2 <= 2 |lam_0| g^(2k+2) sum_(i>=1) c_i^2 :
+   ratio g^2 per iteration.  (rho_0 is the estimate before the loop, rho_(k+1) the one computed
+   by loop body k+1, cf. c13_exit_means_small_change.) *)
+Theorem c13_rayleigh_error_bound : forall (n : nat) (A : arr R) (q : nat -> nat -> R) (lam c : nat -> R) (g : R),
+  (1 <= n)%nat -> ah A = n -> aw A = n ->
+  (forall i j, (i < n)%nat -> (j < n)%nat ->
+     dotf n (q i) (q j) = if (i =? j)%nat then 1 else 0) ->
+  (forall i s, (i < n)%nat -> (s < n)%nat -> mvf n (aget A) (q i) s = lam i * q i s) ->
+  (forall t, (t < n)%nat -> 1 = rsum n (fun i => c i * q i t)) ->
+  c 0%nat <> 0 -> lam 0%nat <> 0 -> 0 <= g < 1 ->
+  (forall i, (1 <= i < n)%nat -> Rabs (lam i) <= g * Rabs (lam 0%nat)) ->
+  forall k, exists rho x,
+    pm_state A k = Ok (rho, x) /\ rho = rqf n (aget A) (ypow n (aget A) k) /\
+    Rabs (rho - lam 0%nat) * c 0%nat ^ 2 <=
+    2 * Rabs (lam 0%nat) * g ^ (2 * k + 2) * rsum (n - 1) (fun i => c (S i) ^ 2).
+Proof. exact Proofs.Power.c13_rayleigh_error_R. Qed.
+Check c13_rayleigh_error_bound : forall (n : nat) (A : arr R) (q : nat -> nat -> R) (lam c : nat -> R) (g : R),
+  (1 <= n)%nat -> ah A = n -> aw A = n ->
+  (forall i j, (i < n)%nat -> (j < n)%nat ->
+     dotf n (q i) (q j) = if (i =? j)%nat then 1 else 0) ->
+  (forall i s, (i < n)%nat -> (s < n)%nat -> mvf n (aget A) (q i) s = lam i * q i s) ->
+  (forall t, (t < n)%nat -> 1 = rsum n (fun i => c i * q i t)) ->
+  c 0%nat <> 0 -> lam 0%nat <> 0 -> 0 <= g < 1 ->
+  (forall i, (1 <= i < n)%nat -> Rabs (lam i) <= g * Rabs (lam 0%nat)) ->
+  forall k, exists rho x,
+    pm_state A k = Ok (rho, x) /\ rho = rqf n (aget A) (ypow n (aget A) k) /\
+    Rabs (rho - lam 0%nat) * c 0%nat ^ 2 <=
+    2 * Rabs (lam 0%nat) * g ^ (2 * k + 2) * rsum (n - 1) (fun i => c (S i) ^ 2).
+Print Assumptions c13_rayleigh_error_bound.
+
 (* PARTIAL.  Full statement (NOT proved; decided by the oracle of tools/props/c13.py only):
      for every symmetric A = Q D Q^T of size n >= 1, D = diag(l1, .., ln) with |li| <= |l1| / 2
      for i >= 2, l1 <> 0 of either sign, <1, q1> <> 0, and every tolerance 0 < tol:
      power_method A tol = Ok (lam, v)  with  ||A v - lam v|| <= C sqrt(tol) |lam| ||v||  and
      |lam - l1| <= C tol |l1|   (C = 8).
-   Missing: the spectral theorem and the convergence analysis of the iteration (in particular a
-   proof that two successive Rayleigh quotients cannot agree to within tol before convergence).
+   Proved towards it (above): c13_rayleigh_residual (lam minimises the residual of v) and
+   c13_rayleigh_error_bound (under an eigen-decomposition hypothesis the k-th estimate converges to
+   l1 with ratio g^2).  What remains ORACLE-ONLY: (a) the link between the STOPPING RULE and the
+   error, i.e. |lam_k - lam_(k-1)| < tol |lam_k|  ==>  |lam_k - l1| <= C tol |l1| (needs monotonicity
+   of the Rayleigh sequence, which holds only for start components that are not too small:
+   measured, not proved); (b) the eigenvector residual bound ||A v - lam v|| <= C sqrt(tol) |lam| ||v||;
+   (c) the existence of the eigen-decomposition (spectral theorem) for symmetric A; (d) rounding.
    Proved here: the case n = 1, where the answer is exact. *)
 Theorem c13_accuracy_partial : forall a es : R, a <> 0 -> 0 < es ->
   power_method [[a]] es = Ok (a, mk_arr 1 1 [1]).
@@ -143,6 +212,23 @@ Print Assumptions c13_accuracy_partial.
 (* non-vacuity: the hypothesis `power_method rows es = Ok (lam, v)` of the two R theorems is met *)
 Example c13_nonvacuous_R : exists lam v, power_method [[2]] (1 / 2) = Ok (lam, v).
 Proof. eexists _, _. apply Proofs.Power.c13_accuracy_1x1_R; lra. Qed.
+
+(* non-vacuity of the eigen-decomposition hypotheses of c13_rayleigh_error_bound: A = diag(2, 1),
+   q_i = e_i, c = (1, 1), g = 1/2: every state exists and |rho_k - 2| <= 4 (1/2)^(2k+2) *)
+Example c13_error_bound_nonvacuous : forall k, exists rho x,
+  pm_state (mk_arr 2 2 [2; 0; 0; 1]) k = Ok (rho, x) /\
+  Rabs (rho - 2) * 1 ^ 2 <= 2 * Rabs 2 * (1 / 2) ^ (2 * k + 2) * rsum 1 (fun _ => 1 ^ 2).
+Proof. exact Proofs.Power.eigen_example. Qed.
+(* ... and of c13_rayleigh_residual (an Ok answer exists, see c13_nonvacuous_R) *)
+Example c13_residual_nonvacuous : exists lam v n A,
+  power_method [[2]] (1 / 2) = Ok (lam, v) /\ try_from [[2]] = Ok A /\ ah A = n /\
+  forall mu, rsum n (fun i => (mvf n (aget A) (fun i => aget v i 0) i - lam * aget v i 0) ^ 2)
+             <= rsum n (fun i => (mvf n (aget A) (fun i => aget v i 0) i - mu * aget v i 0) ^ 2).
+Proof.
+  destruct c13_nonvacuous_R as [lam [v H]].
+  destruct (c13_rayleigh_residual _ _ _ _ H) as [n [A [_ [Htf [HA [_ [_ [_ [_ Hmin]]]]]]]]].
+  exists lam, v, n, A. repeat split; assumption.
+Qed.
 
 (* the model computes: float instance on a 2 x 2 symmetric matrix, the error branches,
    and a run to the iteration cap (zero matrix: 0/0 = NaN forever) *)
